@@ -455,6 +455,12 @@ class SP(Robot):
         if degrees:
             rot = fsr.deg2Rad(rot)
         old_base_pos = self.getBottomT()
+        # The re-indexing below reads the joints' x/y in space, which only are the plate-fixed
+        # coordinates while the plates are parallel and coaxial: spin at the neutral pose,
+        # then return to the current relative pose.
+        old_local_transform = fsr.globalToLocal(self.getBottomT(), self.getTopT())
+        self.IK(top_plate_pos = self.getBottomT() @ self._nominal_plate_transform,
+            protect = True)
         self.move(tm())
         top_joints_copy = self._top_joints_space.copy()
         bottom_joints_copy = self._bottom_joints_space.copy()
@@ -477,6 +483,7 @@ class SP(Robot):
         self._bottom_joints_space = bottom_joints_space_new
         self._top_joints_space = top_joints_space_new
         self.move(old_base_pos)
+        self.IK(top_plate_pos = self.getBottomT() @ old_local_transform, protect = True)
 
 
     def IK(self, top_plate_pos : tm = None, bottom_plate_pos : tm = None, 
